@@ -9,6 +9,15 @@ histogram_t   make_thr(double* b, double* e, tensor_mem_t<scalar_t, 1> t) { retu
 histogram_t   make_thr_i64(tensor_size_t* b, tensor_size_t* e, tensor_mem_t<scalar_t, 1> t) { return histogram_t::make_from_thresholds(b, e, t); }
 histogram_t   make_pct(double* b, double* e, tensor_mem_t<scalar_t, 1> t) { return histogram_t::make_from_percentiles(b, e, t); }
 histogram_t   make_rat(double* b, double* e, tensor_mem_t<scalar_t, 1> t) { return histogram_t::make_from_ratios(b, e, t); }
+// integer sample types: the histogram helpers (mean, median_sorted, update, update_bin) and the constructor per element type
+histogram_t   make_thr_i8(int8_t* b, int8_t* e, tensor_mem_t<scalar_t, 1> t) { return histogram_t::make_from_thresholds(b, e, t); }
+histogram_t   make_thr_i16(int16_t* b, int16_t* e, tensor_mem_t<scalar_t, 1> t) { return histogram_t::make_from_thresholds(b, e, t); }
+histogram_t   make_thr_i32(int32_t* b, int32_t* e, tensor_mem_t<scalar_t, 1> t) { return histogram_t::make_from_thresholds(b, e, t); }
+histogram_t   make_pct_i64(tensor_size_t* b, tensor_size_t* e, tensor_mem_t<scalar_t, 1> t) { return histogram_t::make_from_percentiles(b, e, t); }
+histogram_t   make_rat_i64(tensor_size_t* b, tensor_size_t* e, tensor_mem_t<scalar_t, 1> t) { return histogram_t::make_from_ratios(b, e, t); }
+histogram_t   make_pct_n(double* b, double* e, tensor_size_t bins) { return histogram_t::make_from_percentiles(b, e, bins); }
+histogram_t   make_rat_n(double* b, double* e, tensor_size_t bins) { return histogram_t::make_from_ratios(b, e, bins); }
+histogram_t   make_exp(double* b, double* e, scalar_t base) { return histogram_t::make_from_exponents(b, e, base); }
 double        pct_sorted(const double* b, const double* e, double p) { return percentile_sorted(b, e, p); }
 double        pct(double* b, double* e, double p) { return percentile(b, e, p); }
 double        med_sorted(const double* b, const double* e) { return median_sorted(b, e); }
